@@ -109,7 +109,7 @@ ReloadEv(name) ==
   /\ LET e == Trace[l] IN
        /\ ReloadAtomic
        /\ Range(e.snap) = SnapOf(mem') /\ Len(e.snap) = Cardinality(DOMAIN mem')
-       /\ IF Changed
+       /\ IF Changed /\ Loadable(File)
             THEN \/ NotesOK(e.notes, mem')
                  \/ /\ e.notes = <<>> /\ mem' = mem
             ELSE e.notes = <<>>
